@@ -473,7 +473,7 @@ def r7(ctx):
     for x in walk_exprs(h):
         if x["k"] not in ("Continue", "Break", "Ret"):
             continue
-        gs = guards_of(h, x) or []
+        gs = [g for g in (guards_of(h, x) or []) if g[0] not in ("exit", "exitmatch")]
         texts = [guard_text(g) for g in gs]
         if not any(g[0] == "loop" for g in gs) or not any("read_dir" in t for t in texts):
             continue
@@ -544,6 +544,42 @@ def r7(ctx):
     ctx.covered("ways out of the per-entry loop of visit_dir, each in a reviewed class", n, distinct_keys=["loop-exhausted", "limit", "output-closed"])
     ctx.floor(n, 6, "exits of the entry loop", VISIT_DIR)
 
+def r8(ctx):
+    """every search root is walked: the top-level visit_dir call of list_search_results is reached in every round of the
+    loop over the roots"""
+    hir = ctx.anchor_hir(LSR)
+    top = [c for c in walk_exprs(hir) if c["k"] == "MCall" and c["m"] == "visit_dir"]
+    n = 0
+    for c in top:
+        gs = guards_of(hir, c)
+        its = [it for it in find_iterations(hir) if any(y is c for y in walk_exprs(it["body"]))]
+        ok_loop = any("roots" in render(it["iter"]) for it in its)
+        n += 1
+        ctx.obligation(ok_loop)
+        if not ok_loop:
+            ctx.violation("roots/loop", ctx.where(LSR, c), "the top-level visit_dir call is not inside the loop over the search roots")
+            continue
+        loop_nodes = [it["node"] for it in its]
+        for g in with_exits(gs, after_loop=True):
+            if g[0] == "loop":
+                continue
+            if g[0] == "match" and (g[3] == "ForLoopDesugar" if len(g) > 3 else False):
+                continue
+            if g[0] == "match" and ("into_iter" in render(g[1]) or "Iterator::next" in render(g[1])):
+                continue
+            txt = guard_text(g)
+            pos_, _neg = guard_atoms([g]) if g[0] == "if" else ([], [])
+            if g[0] == "if" and any("limit" in render(a_) and "found" in render(a_) for a_ in _neg):
+                continue        # `if limit reached { break }`: rows beyond LIMIT are not wanted
+            n += 1
+            ctx.obligation(False)
+            ctx.violation("roots/skipped/%s" % re.sub(r"[^A-Za-z0-9_.!]+", "_", txt)[:60], ctx.where(LSR, c),
+                          "a search root is walked only under `%s`: every listed root must be searched, roots are disjoint by "
+                          "assumption and a textual or structural test on them drops whole subtrees" % txt[:160])
+    ctx.floor(len(top), 1, "top-level visit_dir call", LSR)
+    ctx.covered("guards (guard clauses included) of the per-root visit_dir call", n, distinct_keys=["top:%d" % len(top)])
+
+
 RULES = [
     ("C01-R1", "depth window: reporting and descent gates on the depth grid", r1),
     ("C01-R2", "no unlisted skip on the path to reporting an entry", r2),
@@ -553,6 +589,7 @@ RULES = [
     ("C18-R3", "every directory is listed at most once when links are followed [shared with C18]", lambda ctx: __import__("c18").r3(ctx)),
     ("C01-R6", "follow-stat discipline of the walker", r6),
     ("C01-R7", "no unreviewed way out of the per-entry loop before the descent", r7),
+    ("C01-R8", "every search root is walked (no conditional skip in the loop over the roots)", r8),
     ("X-ROOTS", "root option defaults, Root::new and the per-root reset of parse_roots [shared]", lambda ctx: __import__("extra").root_defaults(ctx)),
 ]
 
